@@ -13,10 +13,18 @@ import (
 // blockUntilSignaled will wait for context cancellation, an unblock signal or timeout
 // This method will return true if we were successfully signalled.
 func blockUntilSignaled(ctx context.Context, c *sync.Cond, timeout time.Duration) bool {
+	c.L.Lock()
+	return blockUntilSignaledLocked(ctx, c, timeout)
+}
+
+// blockUntilSignaledLocked is blockUntilSignaled for a caller that already holds c.L, typically because it
+// evaluated the condition it is about to wait for under that lock. The lock is handed to the waiting
+// goroutine, whose Wait registers on the condition before releasing it, so a Broadcast issued under c.L after
+// the caller's check cannot be missed.
+func blockUntilSignaledLocked(ctx context.Context, c *sync.Cond, timeout time.Duration) bool {
 	ready := make(chan struct{})
 
 	go func() {
-		c.L.Lock()
 		defer c.L.Unlock()
 		c.Wait()
 		close(ready)
@@ -87,9 +95,12 @@ func (l *BlockingLimiter) tryAcquire(ctx context.Context) (core.Listener, bool) 
 			return nil, false
 		}
 
-		// try to acquire a new token and return immediately if successful
+		// try to acquire a new token and return immediately if successful. The attempt is made under the
+		// condition's lock, which is kept until the waiter is registered, so a release cannot slip in between.
+		l.c.L.Lock()
 		listener, ok := l.delegate.Acquire(ctx)
 		if ok && listener != nil {
+			l.c.L.Unlock()
 			l.logger.Debugf("delegate returned a listener ctx=%v", ctx)
 			return listener, true
 		}
@@ -99,7 +110,7 @@ func (l *BlockingLimiter) tryAcquire(ctx context.Context) (core.Listener, bool) 
 		// - A timeout
 		// - The context is cancelled
 		l.logger.Debugf("Blocking waiting for release or timeout ctx=%v", ctx)
-		if shouldAcquire := blockUntilSignaled(ctx, l.c, l.timeout); shouldAcquire {
+		if shouldAcquire := blockUntilSignaledLocked(ctx, l.c, l.timeout); shouldAcquire {
 			listener, ok := l.delegate.Acquire(ctx)
 			if ok && listener != nil {
 				l.logger.Debugf("delegate returned a listener ctx=%v", ctx)
